@@ -11,12 +11,20 @@ LEVELS = {
     'C07': 'other',
     'C13': 'proof',
     'C01': 'proof',
+    'C15': 'proof',
 }
 EXPLAIN = {
     'C07': 'Mixed: deductive (all real values at bounded sizes) for aligned_source/alignment_error/rejection on every alignment class, translation and affine recovery + optimality certificates, 2-D rotation orthogonality / built-from-svd / never-a-reflection, PWA vertex, per-triangle affine and edge-continuity clauses; bounded run-time contracts (seeded, never counted as proved) for 3-D rotations, similarity and uniform-scale recovery/size/optimality against an independent Kabsch reference. coverage.obligations/discharged count the deductive part, coverage.bounded_cases the stand-ins.',
 }
 NOT_CLAIMED = {}
 CLAIMS = {
+    'C15': dict(
+        engine='symnp (E2)',
+        design_ref='DESIGN.md §6 C15',
+        technique='contract-based deductive verification: symbolic coordinates through the real labellers / selection methods (re-indexing proved by identity of symbolic leaves, commutation with an uninterpreted row-wise map); structure enumerated; hash-seed independence by a bounded multi-process run',
+        text='All 33 index-based labellers x {ndarray, PointCloud, LabelledPointUndirectedGraph} x {2-D, 3-D}: output points are pairwise distinct input leaves, every point labelled, masks/edges/trilists well-formed, no branch on coordinates, commutes with any row-wise map, wrong sizes rejected, input untouched - for all coordinate values (the input size is fixed by each labeller, so the domain is complete). Selection: with/without/get/add/remove on every label cover of 3 points by 1-3 labels x 3 edge sets x every label subset: exact points, induced edges, restricted masks, original label order, invariant "every point labelled".',
+        note='Selection scope is small (3-4 points), values universal; with_labels only with requests in original order; PYTHONHASHSEED independence is a bounded stand-in (6 seeds in fresh interpreters); one recorded known finding (49-point trimesh table).',
+    ),
     'C01': dict(
         engine='symnp (E2)',
         design_ref='DESIGN.md §6 C01',
